@@ -20,6 +20,7 @@ import (
 	"fmt"
 
 	"golang.org/x/exp/maps"
+	"golang.org/x/exp/slices"
 	"seehuhn.de/go/postscript/cid"
 	"seehuhn.de/go/postscript/funit"
 	"seehuhn.de/go/sfnt/cff"
@@ -50,7 +51,7 @@ func (f *Font) Subset(glyphs []glyph.ID) *Font {
 	if f.CMapTable != nil {
 		res.CMapTable = make(cmap.Table, len(f.CMapTable))
 		for key := range f.CMapTable {
-			c, err := res.CMapTable.Get(key)
+			c, err := f.CMapTable.Get(key)
 			if err != nil {
 				continue
 			}
@@ -260,15 +261,20 @@ func (s *subsetter) SubsetGsub(old *gtab.Info) *gtab.Info {
 				sNew := &gtab.Gsub1_2{
 					Cov: make(map[glyph.ID]int),
 				}
+				// coverage indices must follow the order of the new glyph IDs
+				newToFor := make(map[glyph.ID]glyph.ID)
 				for oldOrig := range sOld.Cov {
 					newFrom, ok := s.newGid[oldOrig]
 					if !ok {
 						continue
 					}
-
-					newTo := oldOrig + sOld.Delta
+					newToFor[newFrom] = s.getNewGid(oldOrig + sOld.Delta)
+				}
+				newFroms := maps.Keys(newToFor)
+				slices.Sort(newFroms)
+				for _, newFrom := range newFroms {
 					sNew.Cov[newFrom] = len(sNew.SubstituteGlyphIDs)
-					sNew.SubstituteGlyphIDs = append(sNew.SubstituteGlyphIDs, s.getNewGid(newTo))
+					sNew.SubstituteGlyphIDs = append(sNew.SubstituteGlyphIDs, newToFor[newFrom])
 				}
 				if len(sNew.Cov) > 0 {
 					tNew.Subtables = append(tNew.Subtables, sNew)
@@ -283,6 +289,7 @@ func (s *subsetter) SubsetGsub(old *gtab.Info) *gtab.Info {
 				sNew := gtab.Gsub4_1{
 					Cov: make(coverage.Table),
 				}
+				ligsFor := make(map[glyph.ID][]gtab.Ligature)
 				for oldFirst, idx := range sOld.Cov {
 					newFirst, ok := s.newGid[oldFirst]
 					if !ok {
@@ -306,9 +313,18 @@ func (s *subsetter) SubsetGsub(old *gtab.Info) *gtab.Info {
 						ligs = append(ligs, newLig)
 					}
 					if len(ligs) > 0 {
-						sNew.Cov[newFirst] = len(sNew.Repl)
-						sNew.Repl = append(sNew.Repl, ligs)
+						ligsFor[newFirst] = ligs
 					}
+				}
+				// coverage indices must follow the order of the new glyph IDs
+				newFirsts := maps.Keys(ligsFor)
+				slices.Sort(newFirsts)
+				for _, newFirst := range newFirsts {
+					sNew.Cov[newFirst] = len(sNew.Repl)
+					sNew.Repl = append(sNew.Repl, ligsFor[newFirst])
+				}
+				if len(sNew.Cov) > 0 {
+					tNew.Subtables = append(tNew.Subtables, &sNew)
 				}
 			case *gtab.Gsub8_1:
 				panic("not implemented")
@@ -329,9 +345,9 @@ func (s *subsetter) SubsetGsub(old *gtab.Info) *gtab.Info {
 			}
 		}
 
-		if len(tNew.Subtables) > 0 {
-			res.LookupList = append(res.LookupList, tNew)
-		}
+		// Lookups are kept even if they are empty now, so that the lookup
+		// indices used by the feature list stay valid.
+		res.LookupList = append(res.LookupList, tNew)
 	}
 
 	return &res
@@ -362,7 +378,8 @@ func (s *subsetter) SubsetGpos(old *gtab.Info) *gtab.Info {
 					if _, ok := s.newGid[pair.Right]; !ok {
 						continue
 					}
-					sNew[pair] = adj
+					newPair := glyph.Pair{Left: s.newGid[pair.Left], Right: s.newGid[pair.Right]}
+					sNew[newPair] = adj
 				}
 				tNew.Subtables[j] = sNew
 			case *gtab.Gpos2_2:
@@ -472,7 +489,7 @@ func (s *subsetter) SubsetGlyf(oldOutlines *glyf.Outlines) *glyf.Outlines {
 			}
 			componendGidNew := glyph.ID(len(s.glyphs))
 			s.glyphs = append(s.glyphs, componentGidOld)
-			s.newGid[oldGid] = componendGidNew
+			s.newGid[componentGidOld] = componendGidNew
 			todo[componentGidOld] = true
 		}
 	}
